@@ -34,6 +34,12 @@ def the_world():
     e4[2][0] += 2
     w["reads"].append(W.read_of("eqsame", "chr1", e3))
     w["reads"].append(W.read_of("eqsame", "chr1", e4, secondary=True))
+    # reads whose SECONDARY record wins: the primary one is an unspliced intergenic alignment, the secondary one follows an annotated
+    # isoform (on the other chromosome / on the same one); a file that holds secondary records only still contributes
+    w["reads"].append(W.read_of("secwin1", "chr2", [[7001, 7400]], polya=False))
+    w["reads"].append(W.read_of("secwin1", "chr1", W.exons(1000, [0, 2, 3, 4]), secondary=True))
+    w["reads"].append(W.read_of("secwin2", "chr2", [[7101, 7450]], polya=False))
+    w["reads"].append(W.read_of("secwin2", "chr2", W.exons(5000, [0, 1, 2]), strand="-", secondary=True))
     # an unmapped record that carries the position of its mate / of a discarded alignment (flag 4 with RNAME and POS), starting where
     # records of other reads start
     w["reads"].append({"name": "placed_unm", "unmapped": True, "chr": "chr1", "pos": 1001})
